@@ -272,7 +272,9 @@ META["C20"] = dict(
     technique="TLA+ lifecycle/translation spec (Ffi.tla) checked by TLC; recorded calls of the real C API validated against it")
 
 SIM_TEXT = ("TLC checks the observer clauses of the property on the simulator mechanism (Simulator.tla: pick_next priorities, "
-            "timer firing, blocking, network stack, a bounded framework oracle) exhaustively within small constants; seeded runs of "
+            "timer firing, blocking, network stack, aggregate delays, a bounded framework oracle) exhaustively within small constants; "
+            "for C15-C19 every behaviour of a smaller configuration is turned into machines that answer as the oracle did and run on the "
+            "real simulator (spec -> implementation); seeded runs of "
             "the real simulator (random traces, delays, machines, stop settings, filters) are recorded through add-only hooks and "
             "every record is folded through the same observer (SimObs) by TLC; the verdict is the set of failing clauses on real executions")
 SIM_NOTE = ("trusted: TLC, the hook records, sim_driver; bounded: <= 2-4 packets, <= 2 machines per side, oracle budget <= 4; "
@@ -280,7 +282,7 @@ SIM_NOTE = ("trusted: TLC, the hook records, sim_driver; bounded: <= 2-4 packets
 for _p in ("C14", "C15", "C16", "C17", "C18", "C19"):
     META[_p] = dict(engine="simulator", level="model_checking", text=SIM_TEXT, note=SIM_NOTE,
                     design_ref="DESIGN.md section 6/" + _p,
-                    technique="TLA+ mechanism (Simulator.tla) + observer (SimObs.tla) checked by TLC; recorded executions of the real simulator validated against the observer (SimTrace.tla)")
+                    technique="TLA+ mechanism (Simulator.tla) + observer (SimObs.tla) checked by TLC; TLC-generated behaviours replayed on the real simulator and recorded executions of the real simulator validated against the observer (SimTrace.tla) and the mechanism (SimMechTrace.tla)")
 
 META["C12"] = dict(
     engine="validation", level="model_checking",
